@@ -64,78 +64,96 @@ def findNF (es : List Entry) : Option Entry := es.find? (·.method = routeNotFou
 inductive Res where
   | hit (e : Entry) (vals : List Str)
   | miss
-deriving Repr, Inhabited
+deriving DecidableEq, Repr, Inhabited
 
-def maxLen (r : R) : Nat := r.foldl (fun a x => max a x.1.length) 0
+/-- bound on the depth of the search: no residual is longer than this -/
+def bound (r : R) : Nat := (r.map (·.1.length)).sum
+
+abbrev Best := Option (List Entry)
+
+/-- (1) the path ends here: remember the position for 405 / custom 404, match the method -/
+def stepEnd (m : Str) (en : List Entry) (path : Str) (best : Best) : Option Entry × Best :=
+  if path.isEmpty then
+    if isHandler en then (findM en m, if best.isNone then some en else best)
+    else (findNF en, best)
+  else (none, best)
+
+/-- (4) the wildcard: `ea` = entries ending with `*` at this position -/
+def stepAny (m : Str) (ea : List Entry) (path : Str) (vals : List Str) (best : Best) : Res × Best :=
+  match findM ea m with
+  | some e => (.hit e (vals ++ [path]), best)
+  | none =>
+    let best := if best.isNone then some ea else best
+    match findNF ea with
+    | some e => (.hit e (vals ++ [path]), best)
+    | none => (.miss, best)
+
+/-- value taken by a named parameter: up to the next `/`, or the whole rest when every
+    pattern through this parameter ends right after it (`leaf`) -/
+def paramValue (leaf : Bool) (path : Str) : Str :=
+  if leaf then path else path.takeWhile (· ≠ '/')
+
+/-- sequencing of alternatives: a hit ends the search, a miss hands the remembered best
+    entries on to the next alternative -/
+def orElse (x : Res × Best) (k : Best → Res × Best) : Res × Best :=
+  match x with
+  | (.hit e v, b) => (.hit e v, b)
+  | (.miss, b) => k b
+
+/-- (2) literal text: follow the next byte of the path if some pattern continues with it -/
+def litStep (k : R → Str → Best → Res × Best) (r : R) (path : Str) (best : Best) : Res × Best :=
+  match path with
+  | c :: rest => if (deriv (.lit c) r).isEmpty then (.miss, best) else k (deriv (.lit c) r) rest best
+  | [] => (.miss, best)
+
+/-- (3) named parameter: needs a non-empty rest of the path -/
+def paramStep (k : R → Str → List Str → Best → Res × Best) (r : R) (path : Str) (vals : List Str)
+    (best : Best) : Res × Best :=
+  if path.isEmpty ∨ (deriv .param r).isEmpty then (.miss, best)
+  else
+    let v := paramValue ((deriv .param r).all (·.1.isEmpty)) path
+    k (deriv .param r) (path.drop v.length) (vals ++ [v]) best
+
+/-- (4) wildcard (`*` ends a pattern, so every residual after it is empty) -/
+def anyStep (m : Str) (r : R) (path : Str) (vals : List Str) (best : Best) : Res × Best :=
+  if (deriv .any r).isEmpty then (.miss, best)
+  else stepAny m (ends (deriv .any r)) path vals best
 
 /-- the documented priority search with full backtracking.  `best` = entries of the first
     position at which the path was matched but not the method (for 405 / custom 404). -/
-def search (m : Str) : Nat → R → Str → List Str → Option (List Entry) → Res × Option (List Entry)
+def search (m : Str) : Nat → R → Str → List Str → Best → Res × Best
   | 0, _, _, _, best => (.miss, best)
   | fuel + 1, r, path, vals, best =>
-    let en := ends r
-    -- (1) the path ends here
-    let best := if path.isEmpty ∧ isHandler en ∧ best.isNone then some en else best
-    let early : Option Entry :=
-      if path.isEmpty then (if isHandler en then findM en m else findNF en) else none
-    match early with
-    | some e => (.hit e vals, best)
-    | none =>
-      -- (2) literal text
-      let (res, best) : Res × Option (List Entry) :=
-        match path with
-        | c :: rest =>
-          let rc := deriv (.lit c) r
-          if rc.isEmpty then (.miss, best) else search m fuel rc rest vals best
-        | [] => (.miss, best)
-      match res with
-      | .hit e v => (.hit e v, best)
-      | .miss =>
-        -- (3) named parameter
-        let rp := deriv .param r
-        let (res, best) : Res × Option (List Entry) :=
-          if path.isEmpty ∨ rp.isEmpty then (.miss, best) else
-          let leaf := rp.all (·.1.isEmpty)
-          let v := if leaf then path else path.takeWhile (· ≠ '/')
-          search m fuel rp (path.drop v.length) (vals ++ [v]) best
-        match res with
-        | .hit e v => (.hit e v, best)
-        | .miss =>
-          -- (4) wildcard
-          let ra := deriv .any r
-          if ra.isEmpty then (.miss, best) else
-          let ea := ends ra     -- `*` ends a pattern, so every residual here is empty
-          match findM ea m with
-          | some e => (.hit e (vals ++ [path]), best)
-          | none =>
-            let best := if best.isNone then some ea else best
-            match findNF ea with
-            | some e => (.hit e (vals ++ [path]), best)
-            | none => (.miss, best)
+    match stepEnd m (ends r) path best with
+    | (some e, best) => (.hit e vals, best)
+    | (none, best) =>
+      orElse (litStep (fun r' rest b => search m fuel r' rest vals b) r path best) fun best =>
+      orElse (paramStep (fun r' rest vals' b => search m fuel r' rest vals' b) r path vals best) fun best =>
+      anyStep m r path vals best
 
 inductive Outcome where
   | dispatch (e : Entry) (vals : List Str)
   | notFound
   | methodNotAllowed (allow : List Str)
-deriving Repr, Inhabited
+deriving DecidableEq, Repr, Inhabited
 
 def allowOf (es : List Entry) : List Str :=
   methodOptions :: ((es.map (·.method)).filter (fun x => x ≠ methodOptions ∧ x ≠ routeNotFound))
 
 def initial (es : List Entry) : R := es.map fun e => (e.toks, e)
 
+/-- the tail of `Find`: a hit is dispatched; otherwise the best position decides between the
+    custom not-found route (its values are cleared by then), 405 and 404 -/
+def finish : Res × Best → Outcome
+  | (.hit e v, _) => .dispatch e v
+  | (.miss, none) => .notFound
+  | (.miss, some b) =>
+    match findNF b with
+    | some e => .dispatch e (e.pnames.map fun _ => [])
+    | none => if isHandler b then .methodNotAllowed (allowOf b) else .notFound
+
 def route (es : List Entry) (m : Str) (path : Str) : Outcome :=
-  let r := initial es
-  let (res, best) := search m (maxLen r + 2) r path [] none
-  match res with
-  | .hit e v => .dispatch e v
-  | .miss =>
-    match best with
-    | none => .notFound
-    | some b =>
-      match findNF b with
-      | some e => .dispatch e (e.pnames.map fun _ => [])   -- best-node fallback: values are cleared
-      | none => if isHandler b then .methodNotAllowed (allowOf b) else .notFound
+  finish (search m (bound (initial es) + 1) (initial es) path [] none)
 
 def routeTable (rs : List Route) (m : Str) (path : Str) : Outcome :=
   route (rs.map mkEntry) m path
